@@ -1,4 +1,5 @@
 import Rip.Driver.C20
+import Rip.Driver.C12
 
 /-- One case per line: `<property> <case tokens…>` → one observation line. -/
 def dispatch (line : String) : String :=
@@ -9,6 +10,7 @@ def dispatch (line : String) : String :=
     let rest := (line.drop (p.length + 1)).toString
     match p with
     | "c20" => Rip.Driver.C20.handle rest
+    | "c12" => Rip.Driver.C12.handle rest
     | _ => "bad-op"
 
 partial def loop (h : IO.FS.Stream) (out : IO.FS.Stream) : IO Unit := do
